@@ -660,6 +660,101 @@ func c04RebuildSteps(p *Pkg) []string {
 	panic("rebuildLog: deferred epilogue not found")
 }
 
+// c04ReplayGuards lists, for node.replayLog, the early returns between the call of
+// ReadRaftState and the hand-over of what it returned to the LogReader (SetState / SetRange).
+// Known guards: the store holds nothing for this replica (ErrNoSavedLog), a read error.
+// Any other return on that stretch makes the fact MISSING.
+func c04ReplayGuards(p *Pkg) []string {
+	fn := p.Func("node", "replayLog")
+	started := false
+	handedState, handedRange := false, false
+	var guards []string
+	mentions := func(e ast.Expr, name string) bool {
+		found := false
+		ast.Inspect(e, func(n ast.Node) bool {
+			switch x := n.(type) {
+			case *ast.Ident:
+				if x.Name == name {
+					found = true
+				}
+			case *ast.SelectorExpr:
+				if x.Sel.Name == name {
+					found = true
+				}
+			}
+			return true
+		})
+		return found
+	}
+	hasReturn := func(b *ast.BlockStmt) bool {
+		r := false
+		ast.Inspect(b, func(n ast.Node) bool {
+			if _, ok := n.(*ast.ReturnStmt); ok {
+				r = true
+			}
+			return true
+		})
+		return r
+	}
+	for _, st := range fn.Body.List {
+		if !started {
+			if as, ok := st.(*ast.AssignStmt); ok && len(as.Rhs) == 1 {
+				if name, c := c04CallName(as.Rhs[0]); c != nil && name == "ReadRaftState" {
+					started = true
+				}
+			}
+			continue
+		}
+		switch x := st.(type) {
+		case *ast.IfStmt:
+			if hasReturn(x.Body) || (x.Else != nil) {
+				if handedRange {
+					continue
+				}
+				if x.Init != nil || x.Else != nil {
+					panic("replayLog: unexpected if shape after ReadRaftState")
+				}
+				switch {
+				case mentions(x.Cond, "ErrNoSavedLog") && mentions(x.Cond, "err"):
+					guards = append(guards, "RgNoSavedLog")
+				case c04ExprString(x.Cond) == "<*ast.BinaryExpr>" && mentions(x.Cond, "err") && mentions(x.Cond, "nil") &&
+					!mentions(x.Cond, "rs") && !mentions(x.Cond, "ss"):
+					guards = append(guards, "RgReadError")
+				default:
+					// a way out that hands nothing to the LogReader: the model treats it as
+					// "may start from nothing" and the restart theorem no longer holds
+					guards = append(guards, "RgUnknownReturn")
+				}
+				continue
+			}
+			// `if hasRaftState { ... SetState(rs.State) }`
+			ast.Inspect(x.Body, func(n ast.Node) bool {
+				if c, ok := n.(*ast.CallExpr); ok {
+					if name, _ := c04CallName(c); name == "SetState" {
+						handedState = true
+					}
+				}
+				return true
+			})
+		case *ast.ExprStmt:
+			if name, c := c04CallName(x.X); c != nil && name == "SetRange" {
+				handedRange = true
+			}
+		case *ast.ReturnStmt:
+			if !handedRange || !handedState {
+				panic("replayLog: returns before SetState/SetRange")
+			}
+		case *ast.AssignStmt:
+		default:
+			panic(fmt.Sprintf("replayLog: unexpected statement %T after ReadRaftState", st))
+		}
+	}
+	if !started || !handedState || !handedRange {
+		panic("replayLog: ReadRaftState / SetState / SetRange not found")
+	}
+	return guards
+}
+
 func init() {
 	register(&Unit{Name: "C04", Imports: "From Coq Require Import Bool.", Facts: []Fact{
 		{Name: "stage vocabulary", Gen: func() string {
@@ -723,6 +818,11 @@ func init() {
 		{Name: "tan rebuildLog epilogue", Gen: func() string {
 			return "Inductive rstep := RsSyncFile | RsCloseFile | RsRename | RsSyncDir.\n" +
 				"Definition tan_rebuild_log_steps : list rstep := [" + strings.Join(c04RebuildSteps(loadPkg("internal/tan")), "; ") + "].\n"
+		}},
+		// node.go replayLog: the only ways out between ReadRaftState and SetState/SetRange
+		{Name: "replayLog guards", Gen: func() string {
+			return "Inductive rguard := RgNoSavedLog | RgReadError | RgUnknownReturn.\n" +
+				"Definition replay_log_guards : list rguard := [" + strings.Join(c04ReplayGuards(loadPkg(".")), "; ") + "].\n"
 		}},
 		// internal/logdb/kv/pebble: every write batch is committed with Sync: true
 		{Name: "pebble write options", Gen: func() string {
